@@ -121,6 +121,8 @@ type Stats struct {
 	AckWithResidue int
 	// LostAdopted: files whose bytes had been lost to a failed fsync when a new WAL instance opened them.
 	LostAdopted int
+	// LostTail: never-committed tail files removed by the harness between Close and Open.
+	LostTail int
 	// FsyncInStoreLogs lists, for the thread that issues the markers, the ordinals
 	// (1-based, among that thread's fsync calls) of the fsyncs issued inside StoreLogs calls.
 	FsyncInStoreLogs []int
@@ -368,6 +370,10 @@ func Check(calls []Sys, dir string, segSize int) (*Violation, Stats) {
 			if fs := files[q[1]]; fs != nil {
 				fs.exists = false
 				fs.dirty = false
+			}
+			if curOp == "HarnessLoseTail" && curPhase == "begin" {
+				st.LostTail++
+				continue // removed by the harness (a never-committed tail lost to a power loss), not by the WAL
 			}
 			if strings.HasSuffix(q[1], ".wal") {
 				pendingUnlink[q[1]] = c.Line
